@@ -238,7 +238,9 @@ def expand(c, rng, full):
         out.append(dict(c, op='remove_element', target=t))
     for t in (nodes if full else rng.sample(nodes, min(2, len(nodes)))):
         out.append(dict(c, op='switch_ground', target=t))
-    skeeps = [[]] + [list(k) for n in range(1, len(srcs) + 1) for k in itertools.combinations(srcs, n)]
+    cand = srcs + shorts
+    skeeps = [[]] + [list(k) for n in range(1, len(cand) + 1) for k in itertools.combinations(cand, n)]
+    if not full and shorts: skeeps = skeeps[:3] + [[shorts[0]], [shorts[-1]] + srcs[:1]]
     for k in (skeeps if full else skeeps[:3]):
         out.append(dict(c, op='remove_ideal_cs', keep=k))
         out.append(dict(c, op='remove_ideal_vs', keep=k))
